@@ -2,7 +2,7 @@
 # usage: tools/allchecks.sh <seed> [tier]  — runs every claimed check, prints one line per property
 cd "$(dirname "$0")/.."
 SEED=${1:-0}; TIER=${2:-quick}
-IDS=$(python3 -c "import json; print(' '.join(c['property_id'] for c in json.load(open('MANIFEST.json'))['checks']))")
+IDS=${IDS:-$(python3 -c "import json; print(' '.join(c['property_id'] for c in json.load(open('MANIFEST.json'))['checks']))")}
 for id in $IDS; do
   ( s=$(date +%s); out=$(VERIF_SEED=$SEED timeout 3000 ./check $id $TIER 2>&1); rc=$?; e=$(( $(date +%s) - s ));
     echo "$id seed=$SEED rc=$rc ${e}s $(echo "$out" | grep -E 'VIOLATION|KNOWN-FINDING' | head -2 | tr '\n' ' ')" ) &
